@@ -21,7 +21,7 @@ func init() {
 	ev.Register(&ev.Check{
 		ID:               "C09",
 		Level:            "exploration",
-		Rule:             "ALL type graphs over a root (5 root forms) and 2 user types with the full body alphabet (scalar, alias, or-shortcut, array, allOf parent, additionalProperties type, key shortcut, objects with 1-2 slots each one of {scalar, required ref, optional ref, array item, or-shortcut, nested object}) and over 3 (thorough: 3 with two-slot objects / 4 with one-slot) user types with the one-slot alphabet, x EVERY subset of types left un-added; plus structured families up to 6 types (rings, chains into rings, diamonds, rings with one optional/array/or-terminating edge at each position). Oracles: typegraph reference (missing-name set, referenced-name set, least-fixpoint inhabitation), termination of Check/Validate/Example on every accepted graph (worker death or 40 s without progress = violation). Non-trivial = distinct graph with >= 1 reference edge.",
+		Rule:             "ALL type graphs over a root (5 root forms) and 2 user types with the full body alphabet (scalar, alias, or-shortcut, array, allOf parent at the type's root / on an array element / on a property value, additionalProperties type, key shortcut, objects with 1-2 slots each one of {scalar, required ref, optional ref, array item, or-shortcut, nested object}) and over 3 (thorough: 3 with two-slot objects / 4 with one-slot) user types with the one-slot alphabet, x EVERY subset of types left un-added; plus structured families up to 6 types (rings, chains into rings, diamonds, rings with one optional/array/or-terminating edge at each position). Oracles: typegraph reference (missing-name set, referenced-name set, least-fixpoint inhabitation), termination of Check/Validate/Example on every accepted graph (worker death or 40 s without progress = violation). Non-trivial = distinct graph with >= 1 reference edge.",
 		Run:              run,
 		Replay:           replay,
 		QuickBudget:      80 * time.Second,
@@ -122,6 +122,11 @@ func eval(cs caseT, trace func(string)) (string, string) {
 	if chk.Code == 1302 {
 		return "false-missing", fmt.Sprintf("%s: every referenced type is added, yet Check reports %s", desc, chk)
 	}
+	// an allOf parent that is not an object makes the graph invalid for a reason
+	// of its own; which of the two problems Check names first is not asserted
+	if allOfNonObject(g) {
+		return "", ""
+	}
 	// (c) recursion
 	g.NullableTerminates = true
 	rootInh := g.RootInhabited() // lenient: "must reject" only if even null does not help
@@ -161,6 +166,51 @@ func eval(cs caseT, trace func(string)) (string, string) {
 	return "", ""
 }
 
+// allOfNonObject: some allOf rule names a type that is not (an alias of) an object.
+func allOfNonObject(g *typegraph.Graph) bool {
+	isObj := func(name string) bool {
+		for i := 0; i < 8; i++ {
+			b, ok := g.Types[name]
+			if !ok || b == nil {
+				return true // missing types are handled elsewhere
+			}
+			if b.Kind == gen.KObj {
+				return true
+			}
+			if b.Kind == gen.KRef && !strings.Contains(b.Lit, "|") {
+				name = strings.TrimSpace(b.Lit)
+				continue
+			}
+			return false
+		}
+		return false
+	}
+	bad := false
+	visit := func(n *gen.Node) {
+		if n == nil {
+			return
+		}
+		n.Walk(func(x *gen.Node) {
+			a := x.Rule("allOf")
+			if a == nil {
+				return
+			}
+			if a.List {
+				for _, it := range a.Items {
+					bad = bad || !isObj(gen.StrValue(it.Lit))
+				}
+			} else {
+				bad = bad || !isObj(gen.StrValue(a.Val))
+			}
+		})
+	}
+	visit(g.Root)
+	for _, b := range g.Types {
+		visit(b)
+	}
+	return bad
+}
+
 const strType = "@S"
 
 func strBody() *gen.Node { return gen.Str(`"k"`).With(gen.R("minLength", "1")) }
@@ -187,6 +237,9 @@ func slots(names []string, rich bool) []*gen.Node {
 func bodies(names []string, twoSlots, rich bool) []*gen.Node {
 	out := []*gen.Node{gen.Int("1")}
 	for _, x := range names {
+		// allOf below the type's root: on an array element and on a property value
+		out = append(out, gen.Arr(gen.Obj().With(gen.R("allOf", `"`+x+`"`))),
+			gen.Obj(gen.P("p", gen.Obj().With(gen.R("allOf", `"`+x+`"`)))))
 		out = append(out, gen.Ref(x), gen.Arr(gen.Ref(x)),
 			gen.Obj().With(gen.R("allOf", `"`+x+`"`)),
 			gen.Obj().With(gen.R("additionalProperties", `"`+x+`"`)),
